@@ -35,6 +35,27 @@ CLAIMED.update({
     ),
 })
 
+CLAIMED.update({
+    "C06": (
+        "property-based translation check: generated closed formulas rendered by tptp::Format inside a checker-assembled problem; oracle = strict TFF reader + type checker and evaluation of source vs read-back formula (proptest, shrinking)",
+        "Exploration: every generated formula (chains of length 1-4 under every connective/quantifier, all sort combinations, isize::MIN/MAX numerals, placeholders of all sorts) is rendered, read back by an independent strict TFF reader and type checker with the standard reading of the preamble symbols, and must have the source formula's truth value in a random interpretation; rejection by the reader is a violation too.",
+        "Trusted: the checker's TFF reader/type checker (acceptance cross-checked against the repository's tptp4X on anthem output and mutations) and evaluator; window mode is sound because rendering is a transliteration.",
+        "4/C06",
+    ),
+    "C07": (
+        "property-based semantic equivalence testing: generated formulas (guarded/unguarded, directed binder/equality shapes, translator outputs) x 3 portfolios x 3 strategies x interpretations; oracle = exact three-valued evaluator over the standard domain before vs after (HT for intuitionistic/ht, classical for classic)",
+        "Exploration: the truth value (HT or classical, as documented per portfolio) before and after simplification is computed exactly over the infinite standard domain through finite candidate sets; only definite verdicts are compared, the inconclusive share is reported. Each rewrite's firing frequency is in the evidence.",
+        "Trusted: the exact evaluator (candidate-set soundness argued in DESIGN.md 3.2, self-checked in paranoid mode) and finite-extent interpretations.",
+        "4/C07",
+    ),
+    "C18": (
+        "property-based testing: (a) checker-driven iteration of the composed simplification pass with cycle detection and pass bound, idempotence of the fixpoint under all strategies; (b) byte comparison of repeated runs of the real binary in fresh processes",
+        "Exploration: termination is decided without a clock (cycle = revisited formula; bound on passes), the fixpoint must equal apply_fixpoint and be stable under every strategy; determinism is checked by running translate/simplify/verify --save-problems three times in fresh processes on generated inputs with many predicates/symbols and comparing bytes and file sets.",
+        "Trusted: process isolation gives fresh hash seeds; non-termination that is neither a cycle nor exceeds the pass bound cannot be observed.",
+        "4/C18",
+    ),
+})
+
 NOT_YET = {}
 
 def main():
